@@ -17,7 +17,8 @@ TStep(t, op) ==
          ELSE [t |-> t, ret |-> "lost", out |-> <<>>]
     [] op.o = "talk_respond" ->
          IF op.tr \notin t.held THEN [t |-> t, ret |-> "unresolved", out |-> <<>>]
-         ELSE IF t.running THEN [t |-> [t EXCEPT !.held = @ \ {op.tr}], ret |-> "Ok(())", out |-> <<<<op.tr, "answer">>>>]
+         ELSE IF t.running THEN [t |-> [t EXCEPT !.held = @ \ {op.tr}], ret |-> "Ok(())",
+                                 out |-> <<<<op.tr, IF "empty" \in DOMAIN op /\ op.empty THEN "empty" ELSE "answer">>>>]   \* (an empty payload is an answer too)
          ELSE [t |-> [t EXCEPT !.held = @ \ {op.tr}], ret |-> "Err(ChannelClosed)", out |-> <<>>]
     [] op.o = "talk_drop" ->
          IF op.tr \notin t.held THEN [t |-> t, ret |-> "unresolved", out |-> <<>>]
